@@ -1,10 +1,10 @@
 #!/bin/sh
 # try_mutant.sh <patch.diff> <stream> [n] : apply patch to /repo, run one correspondence stream, report, undo.
-P="$1"; S="$2"; N="${3:-300}"
+P="$1"; S="$2"; N="${3:-300}"; FOCUS="${4:-}"
 export GOFLAGS=-mod=mod GOPROXY=off
 git -C /repo apply "$P" || { echo "patch does not apply"; exit 2; }
 cd /verif/harness && go build -tags verif -o /tmp/hmut . 2>&1 | tail -3
-rm -rf /tmp/omut; timeout 600 /tmp/hmut $S --seed 1 --n $N --out /tmp/omut >/tmp/omut.log 2>&1; rc=$?
+rm -rf /tmp/omut; timeout 600 /tmp/hmut $S --seed 1 --n $N ${FOCUS:+--focus $FOCUS} --out /tmp/omut >/tmp/omut.log 2>&1; rc=$?
 git -C /repo checkout -- .
 if [ $rc -ne 0 ]; then echo "harness rc=$rc: $(tail -3 /tmp/omut.log)"; fi
 if [ -f /tmp/omut/$S.in ]; then /verif/ocaml/driver /tmp/omut/$S.in > /tmp/omut/$S.mod; cmp -s /tmp/omut/$S.mod /tmp/omut/$S.obs && echo "model: SAME" || echo "model: DIFF at $(cmp /tmp/omut/$S.mod /tmp/omut/$S.obs | head -1)"; fi
